@@ -192,10 +192,18 @@ class extract_visitor(NodeVisitor):
     def visit_TryExcept(self, node):
         # type: (ast.Try) -> None
         cur = self.flow
-        body = self.visit_in_flow(node.body, self.make_flow('try', [cur]))
+        # an exception may leave the body at any of its statements: each one
+        # gets a region of its own and a handler starts from all of them
+        body = self.make_flow('try', [cur])
+        raised = [cur]
+        for n, stmt in enumerate(node.body):
+            if n:
+                body = self.make_flow('try', [body])
+            body = self.visit_in_flow(stmt, body)
+            raised.append(body)
         handlers = []
         for h in node.handlers:
-            fh = self.make_flow('except', [cur, body])
+            fh = self.make_flow('except', raised)
             if h.name:
                 if PY2:
                     fh.add_name(AssignedName(h.name.id, np(h.body[0]), np(h), h.type))
